@@ -262,8 +262,8 @@ c.setup(_setup)
 c.ensures('accept-or-message', 'result is True or (falsy(result) and errs() > old(errs()))')
 c.ensures('loop-frame-opened-first-closed-last', "result is True ==> instr(emitted(_p)[0], 'LOOP') and instr(emitted(_p)[-1], 'END_LOOP') "
           "and no_instr(emitted(_p)[1:-1], 'LOOP') and no_instr(emitted(_p)[1:-1], 'END_LOOP')")
-c.ensures('breaks-target-the-end-loop', "result is True ==> ghost('breaks_fixed') == 1 and ghost('break_target') == end_index(_p) - 1")
-c.ensures('exit-jump-lands-on-end-loop', "result is True ==> exit_jump_target(_p) == end_index(_p) - 1")
+c.ensures('breaks-leave-through-the-loops-exit-point', "result is True ==> ghost('breaks_fixed') == 1 and jump_targets(_p, 'IF_FALSE', ghost('break_target'))")
+c.ensures('exit-point-leads-straight-to-this-loops-end-loop', "result is True ==> exit_sequence_ok(_p, ghost('break_target'))")
 c.ensures('back-jump-lands-on-the-test', "result is True ==> instr(emitted(_p)[-2], 'JUMP', JumpCondition.ALWAYS) and emitted(_p)[-2].param1 < 0")
 c.ensures('loop-context-popped', 'result is True ==> len(context_stack._loop_stack) == len(old(context_stack._loop_stack))')
 
